@@ -268,7 +268,7 @@ def leafFun (A : AOps R) (θ : Nat → Option (Array R)) (pre : R → R := id) :
       let LP ← match lp with
         | some e => do let t ← e.eval A θ pre; pure (some t)
         | none => pure none
-      if (A.exp A.zero).isNone then throw "unsupported exp (gaussian)"
+      if !A.analytic then throw "unsupported exp (gaussian)"
       .ok (k, fun i x =>
         let m := M.get1 i A.zero
         let s := S.get1 i A.one
